@@ -50,6 +50,7 @@ let () =
   let last_r = ref "" and last_info = ref "" and last_op = ref ("", "", "") in
   let total = ref [] and cap = ref Z0 and case_viol = ref false and compressing_case = ref false in
   let accepted_all_docs = ref [] in
+  let prev_wsizes = ref [] in
   let case_tag = ref "-" in
   let accepted = ref [] and all_accepted = ref true and last_wd = ref None and case_kind = ref "" in
   let st = ref None in
@@ -71,7 +72,7 @@ let () =
     | "CASE" :: id :: kind :: n :: _wrapper :: rest ->
         incr ncases; case_id := id; case_bad := false;
         last_r := ""; last_info := ""; last_op := ("", "", ""); total := []; case_viol := false;
-        accepted := []; all_accepted := true; last_wd := None; case_kind := kind; accepted_all_docs := [];
+        accepted := []; all_accepted := true; last_wd := None; case_kind := kind; accepted_all_docs := []; prev_wsizes := [];
         compressing_case := List.mem kind ["base"; "batch"; "dyn"; "stream"; "sdyn"];
         cap := (if kind = "base" then zadd (z_of_string n) (z_of_int 1) else z_of_string n);
         json_kind := (String.length kind >= 4 && String.sub kind (String.length kind - 4) 4 = "uncj");
@@ -177,6 +178,19 @@ let () =
                          if opn = "X" then accepted := [];
                          let (total', ok) = c07_step !cap !total k addok d wd rd (z_of_string (if !last_info = "" then "0" else !last_info)) in
                          total := total';
+                         (* only the last chunk may hold fewer *)
+                         let nz = (match !cap with c -> if !case_kind = "base" then zadd c (z_of_int (-1)) else c) in
+                         let prev_w = !prev_wsizes in
+                         let new_w = (let rec dropn l k = if k = 0 then l else match l with [] -> [] | _ :: r -> dropn r (k-1) in
+                                      dropn wd.dc_sizes (List.length prev_w)) in
+                         let sizes_ok =
+                           (if !case_kind = "batch" then all_but_last_full nz rd.dc_sizes else true)
+                           && (if !case_kind = "stream" && (opn = "A" || opn = "B") then all_full nz new_w else true) in
+                         prev_wsizes := wd.dc_sizes;
+                         if not sizes_ok && not !case_viol then begin
+                           case_viol := true; incr viol;
+                           Printf.printf "VIOL case=%s line=%d c07 chunk sizes: a chunk that is not the last holds fewer than %s samples after op %s: resolve=%s new-writer-records=%s\n"
+                             !case_id !ln (string_of_z nz) opn (join_z rd.dc_sizes) (join_z new_w) end;
                          if not ok && not !case_viol then begin
                            case_viol := true; incr viol;
                            Printf.printf "VIOL case=%s line=%d c07_ok=false after op %s: decoded(writer)=%d docs, decoded(resolve)=%d docs, expected total=%d, info=%s sizes=%s cap=%s\n"
